@@ -256,6 +256,159 @@ func npmStarCollapse(r Range) bool {
 	return n > 1 && star
 }
 
+// orMergePre (F-C03-or-merge-pre): the candidate is a prerelease and two `||` alternatives meet
+// at a tagged operand T with the candidate's numbers: T is an upper-bound operand of one
+// alternative (`<T`, `<=T`, `=T`, `T`, hyphen upper end) and, with the same numbers and tag, a
+// lower-bound operand of the other (`>T`, `>=T`, `^T`, `~T`, `=T`, `T`, hyphen lower end), not
+// excluded on both sides, and the tags of the first alternative's lower bound and of the second's
+// upper bound can equal T's (operands' tags; `0` for the library's minimum version when no
+// comparator sets a lower bound; `~T` keeps its tag on the upper bound). canon then merges the two spans into one that no longer has T as a
+// bound, and the prerelease candidates that node admits through T are lost.
+type tagBound struct {
+	P    Partial
+	Open bool
+}
+
+func fullTagged(p Partial) bool { return !isPartial(p) && len(p.Pre) > 0 }
+
+func identsEq(a, b []Ident) bool {
+	if len(a) != len(b) {
+		return false
+	}
+	for i := range a {
+		if a[i].Num != b[i].Num {
+			return false
+		}
+		if a[i].Num && a[i].N != b[i].N {
+			return false
+		}
+		if !a[i].Num && a[i].S != b[i].S {
+			return false
+		}
+	}
+	return true
+}
+
+func altUppers(a Alt) []tagBound {
+	var out []tagBound
+	if a.Hyphen {
+		if fullTagged(a.Hi) {
+			out = append(out, tagBound{a.Hi, false})
+		}
+		return out
+	}
+	for _, c := range a.Comps {
+		if !fullTagged(c.P) {
+			continue
+		}
+		switch c.Op {
+		case "<":
+			out = append(out, tagBound{c.P, true})
+		case "<=", "=", "":
+			out = append(out, tagBound{c.P, false})
+		}
+	}
+	return out
+}
+
+func altLowers(a Alt) []tagBound {
+	var out []tagBound
+	if a.Hyphen {
+		if fullTagged(a.Lo) {
+			out = append(out, tagBound{a.Lo, false})
+		}
+		return out
+	}
+	for _, c := range a.Comps {
+		if !fullTagged(c.P) {
+			continue
+		}
+		switch c.Op {
+		case ">":
+			out = append(out, tagBound{c.P, true})
+		case ">=", "^", "~", "~>", "=", "":
+			out = append(out, tagBound{c.P, false})
+		}
+	}
+	return out
+}
+
+func altLowerTags(a Alt) [][]Ident {
+	if a.Hyphen {
+		if isX(a.Lo, 0) {
+			return [][]Ident{zeroPre}
+		}
+		return [][]Ident{a.Lo.Pre}
+	}
+	var out [][]Ident
+	noLower := true // no comparator sets a lower bound: the library's minimum version 0.0.0-0
+	for _, c := range a.Comps {
+		if !(c.Op == "<" || c.Op == "<=" || isX(c.P, 0)) {
+			noLower = false
+		}
+	}
+	if noLower {
+		out = append(out, zeroPre)
+	}
+	for _, b := range altLowers(a) {
+		out = append(out, b.P.Pre)
+	}
+	return out
+}
+
+func altUpperTags(a Alt) [][]Ident {
+	if a.Hyphen {
+		return [][]Ident{a.Hi.Pre}
+	}
+	var out [][]Ident
+	for _, b := range altUppers(a) {
+		out = append(out, b.P.Pre)
+	}
+	for _, c := range a.Comps {
+		if (c.Op == "~" || c.Op == "~>") && fullTagged(c.P) {
+			out = append(out, c.P.Pre)
+		}
+	}
+	return out
+}
+
+func hasTag(l [][]Ident, t []Ident) bool {
+	for _, x := range l {
+		if identsEq(x, t) {
+			return true
+		}
+	}
+	return false
+}
+
+func meetAt(v SemVer, a, b Alt) bool {
+	for _, t := range altUppers(a) {
+		for _, u := range altLowers(b) {
+			if t.P.Nums[0] == u.P.Nums[0] && t.P.Nums[1] == u.P.Nums[1] && t.P.Nums[2] == u.P.Nums[2] &&
+				identsEq(t.P.Pre, u.P.Pre) && !(t.Open && u.Open) &&
+				t.P.Nums[0] == v.Major && t.P.Nums[1] == v.Minor && t.P.Nums[2] == v.Patch &&
+				hasTag(altLowerTags(a), t.P.Pre) && hasTag(altUpperTags(b), t.P.Pre) {
+				return true
+			}
+		}
+	}
+	return false
+}
+
+func npmOrMergePre(r Range, v SemVer) bool {
+	if len(v.Pre) == 0 {
+		return false
+	}
+	for i := range r.Alts {
+		for j := i + 1; j < len(r.Alts); j++ {
+			if meetAt(v, r.Alts[i], r.Alts[j]) || meetAt(v, r.Alts[j], r.Alts[i]) {
+				return true
+			}
+		}
+	}
+	return false
+}
+
 // nePre0: a `!=V` clause whose V orders below 0 (zero release with a
 // pre-release or bare dev suffix).
 func pepNePre0(s PepSpec) bool {
@@ -312,6 +465,9 @@ func classesOf(eco, renc, venc string) ([]string, bool) {
 		}
 		if npmStarCollapse(rg) && len(v.Pre) > 0 {
 			out = append(out, "F-C03-star-collapse")
+		}
+		if npmOrMergePre(rg, v) {
+			out = append(out, "F-C03-or-merge-pre")
 		}
 	case "cargo":
 		rg, ok1 := DecRange(renc)
